@@ -5,8 +5,8 @@
     Convolution is unroll_blocks ; reshape ; matmul ; expand_conv in corgi: the identities of unroll (whose transpose is the
     SUMMING roll - overlapping windows), expand (a per-image permutation) and matmul together with C01 give conv for every
     stride, filter size and batch.  Sigmoid uses the scalar law [Hsig] (the dual-number run of sigmoid has tangent
-    s*(1-s)*x'), proved for the reals as Props/C02real.v's C02r_sigmoid_dual.  NOT covered: the rank-1 matmul forms
-    (dot product, vector-left/right) - exercised by the correspondence and dual-number runs only.
+    s*(1-s)*x'), proved for the reals as Props/C02real.v's C02r_sigmoid_dual.  The rank-1 matmul forms the property names
+    (dot product, vector-left, vector-right) are covered too.
 
     Statements only: every theorem below is closed by [exact <lemma>]; the lemmas are proved in
     the files imported here.  Generated with tools/gen_props.py from the lemmas' own types. *)
@@ -17,7 +17,7 @@ From Corgi Require Import Lib.OptionMonad Lib.Sums Model.Scalar Model.Arr Model.
      Proofs.EwSpec Proofs.ReduceSpec.
 Import ListNotations.
 From Corgi Require Import Model.Ops Proofs.FlattenSpec Proofs.MatmulSpec Proofs.ConvSpec Proofs.DualLift
-     Proofs.LocalAdjoint Proofs.LocalAdjoint2.
+     Proofs.LocalAdjoint Proofs.LocalAdjoint2 Proofs.LocalAdjoint3.
 
 (** matmul with additive term *)
 Theorem C02_matmul :
@@ -134,6 +134,52 @@ Theorem C02_roll_value :
                 else f0 O0) (seq 0 (out_count rows fr sr * out_count cols fc sc * depth * fr * fc)))).
 Proof. exact @roll_g_spec. Qed.
 
+(** rank-1 . rank-1 (the dot product) with additive term [1] *)
+Theorem C02_dot_product :
+  forall (F : Type) (O0 : ScalarOps F),
+         is_cring O0 ->
+         local_identity O0 3 dot_pre
+           (fwd3 (fun A B C : arr dual => a_matmul (dual_ops O0) A false B false (Some C)))
+           (fun (_ : list (arr F)) (_ : arr F) => BMatmul false false).
+Proof. exact @dot_local. Qed.
+
+(** the dot product without additive term (the closure that used to panic: D13) *)
+Theorem C02_dot_product_no_term :
+  forall (F : Type) (O : ScalarOps F), is_cring O -> local_identity_absent O false false dot_pre.
+Proof. exact @dot_local_absent. Qed.
+
+(** vector x matrix *)
+Theorem C02_vector_left :
+  forall (F : Type) (O0 : ScalarOps F),
+         is_cring O0 ->
+         forall ta tb : bool,
+         local_identity O0 3 (vecl_pre ta tb)
+           (fwd3 (fun A B C : arr dual => a_matmul (dual_ops O0) A ta B tb (Some C)))
+           (fun (_ : list (arr F)) (_ : arr F) => BMatmul ta tb).
+Proof. exact @vecl_local. Qed.
+
+(** vector x matrix without additive term *)
+Theorem C02_vector_left_no_term :
+  forall (F : Type) (O : ScalarOps F),
+         is_cring O -> forall ta tb : bool, local_identity_absent O ta tb (vecl_pre ta tb).
+Proof. exact @vecl_local_absent. Qed.
+
+(** matrix x vector *)
+Theorem C02_vector_right :
+  forall (F : Type) (O0 : ScalarOps F),
+         is_cring O0 ->
+         forall ta tb : bool,
+         local_identity O0 3 (vecr_pre ta tb)
+           (fwd3 (fun A B C : arr dual => a_matmul (dual_ops O0) A ta B tb (Some C)))
+           (fun (_ : list (arr F)) (_ : arr F) => BMatmul ta tb).
+Proof. exact @vecr_local. Qed.
+
+(** matrix x vector without additive term *)
+Theorem C02_vector_right_no_term :
+  forall (F : Type) (O : ScalarOps F),
+         is_cring O -> forall ta tb : bool, local_identity_absent O ta tb (vecr_pre ta tb).
+Proof. exact @vecr_local_absent. Qed.
+
 Print Assumptions C02_matmul.
 Print Assumptions C02_matmul_no_additive_term.
 Print Assumptions C02_unroll.
@@ -143,3 +189,9 @@ Print Assumptions C02_custom_mul.
 Print Assumptions C02_custom_affine.
 Print Assumptions C02_custom_square.
 Print Assumptions C02_roll_value.
+Print Assumptions C02_dot_product.
+Print Assumptions C02_dot_product_no_term.
+Print Assumptions C02_vector_left.
+Print Assumptions C02_vector_left_no_term.
+Print Assumptions C02_vector_right.
+Print Assumptions C02_vector_right_no_term.
